@@ -39,7 +39,7 @@ from harness import semrun
 from harness import tlc
 
 PROP = 'C17'
-FAMILIES = [1, 2, 3, 4]
+FAMILIES = [1, 2, 3, 4, 5, 6, 7]
 MAX_ROWS = 40      # traces with larger tables are not sent to TLC (cost)
 KINDS = ['RunDependant', 'RunAgain', 'RunGrounded', 'PrePopulate',
          'SwitchVersion']
@@ -94,8 +94,11 @@ def ReplayHistory(item):
   steps = [{'a': h['a'], 'p': h['p'], 't': h['p'], 'ver': h['ver'],
             'bag': (StaleBag(fam, h['p']) if h['a'] == 'Pre' else [])}
            for h in hist]
+  # every run goes through the real sqlite3_logica.RunSqlScript; in a part of
+  # the histories every second run is the subprocess `logica.py run_to_csv`
+  main_every = 2 if item.get('main') else 0
   events, infos, texts = groundrun.Perform(
-      fam['versions'], fam['attach'], steps, _opts.get('cache', False))
+      fam['versions'], steps, _opts.get('cache', False), main_every)
   bad = None
   drift = 0
   for k, (h, ev, info) in enumerate(zip(hist, events, infos)):
@@ -104,10 +107,11 @@ def ReplayHistory(item):
       bad = {'step': k + 1, 'clause': d}
     if h['a'] == 'Run' and info.get('main_sql'):
       for t in h['reads']:
-        if '%s.%s' % (fam['attach'], t) not in info['main_sql']:
+        if t not in info['main_sql']:
           drift += 1
   return {'ix': item['ix'], 'bad': bad, 'events': events, 'drift': drift,
           'errors': [i for i in infos if i.get('cls')],
+          'modes': [i.get('mode') for i in infos if i.get('mode')],
           'compiled': groundrun.STATS['compiled'],
           'cached': groundrun.STATS['cached'], 'pid': os.getpid()}
 
@@ -140,22 +144,70 @@ def Below(prog, name):
   return seen
 
 
+SCALAR_ORDER_AGGS = ('', 'Sum', 'Min', 'Max', 'Count')
+
+
+def TableKey(version, g):
+  """"alias.name" of a grounded predicate (GroundSem!RawTable) - used only to
+  find the observed rows of a table when classifying a rejected step."""
+  if g['t']:
+    return g['t']
+  d = version.get('dataset') or (
+      'logica_home' if 'logica_home' in version['attached'] else 'logica_test')
+  return '%s.%s' % (d, g['p'])
+
+
 def MakeCase(i):
   rng = common.Rng('C17/trace/%d' % i)
   profile = gen.CORE if i % 2 == 0 else gen.AGG7
-  prog, query, feats = gen.Generate(rng, profile)
+  g = gen.Gen(rng, profile)
+  prog, query, feats = g.Program()
   inter = meta.Intermediates(prog)
   if not inter:
     return None
   rng.shuffle(inter)
-  custom = {n: (n + '_tbl' if rng.random() < 0.25 else n) for n in inter}
+  shapes = []
+  # the attached databases and the dataset
+  attached = rng.choice([['logica_test'], ['logica_home'],
+                         ['logica_home', 'archive'],
+                         ['logica_test', 'archive'],
+                         ['logica_home', 'archive']])
+  dataset = 'archive' if (len(attached) > 1 and rng.random() < 0.6) else ''
+  if len(attached) > 1:
+    shapes.append('several_databases')
+  if dataset:
+    shapes.append('dataset_annotation')
+  custom = {n: ('%s.%s_tbl' % (rng.choice(attached), n)
+                if rng.random() < 0.25 else '') for n in inter}
 
   def Grounded(names):
     return [{'p': n, 't': custom[n]} for n in sorted(names)]
   g1 = inter[:1 if (len(inter) == 1 or rng.random() < 0.5) else 2]
-  v1 = {'prog': prog, 'grounded': Grounded(g1)}
+  # an ordered and limited grounded predicate (total order: all columns)
+  sig = {x.name: x for x in g.sigs}
+  by = {p['name']: p for p in prog['preds']}
+  okl = [n for n in g1 if all(t in ('n', 's') for _, t in sig[n].fields)
+         and all(a in SCALAR_ORDER_AGGS for a in sig[n].aggs.values())]
+  if okl and rng.random() < 0.45:
+    n = rng.choice(okl)
+    fields = [f for f, _ in sig[n].fields]
+    rng.shuffle(fields)
+    by[n]['order'] = [{'f': f, 'desc': rng.random() < 0.5} for f in fields]
+    by[n]['limit'] = rng.randint(1, 3)
+    shapes.append('order_limit_multi_rule' if len(by[n]['rules']) > 1
+                  else 'order_limit_single_rule')
+  if any(custom[n] for n in g1):
+    shapes.append('explicit_table_name')
+
+  def Version(p, names, ds):
+    return {'prog': p, 'attached': attached, 'dataset': ds,
+            'grounded': Grounded(names)}
+  v1 = Version(prog, g1, dataset)
   facts = [p for p in prog['preds'] if IsFactTable(p)]
   second = 'facts' if (facts and rng.random() < 0.5) else 'reground'
+  # the second version may also drop / add the @Dataset annotation
+  dataset2 = dataset if rng.random() < 0.7 else (
+      '' if dataset else ('archive' if len(attached) > 1 else ''))
   if second == 'facts':
     prog2 = copy.deepcopy(prog)
     target = rng.choice([p for p in prog2['preds'] if IsFactTable(p)])
@@ -163,20 +215,24 @@ def MakeCase(i):
       target['rules'].append(copy.deepcopy(rng.choice(target['rules'])))
     else:
       target['rules'].pop(rng.randrange(len(target['rules'])))
-    v2 = {'prog': prog2, 'grounded': Grounded(g1)}
+    v2 = Version(prog2, g1, dataset2)
   else:
     pool = list(inter)
     rng.shuffle(pool)
     g2 = pool[:rng.randint(1, min(2, len(pool)))]
     if sorted(g2) == sorted(g1) and len(inter) > len(g1):
       g2 = [n for n in inter if n not in g1][:1]
-    v2 = {'prog': prog, 'grounded': Grounded(g2)}
+    v2 = Version(prog, g2, dataset2)
   versions = [v1, v2]
-  attach = rng.choice(['logica_test', 'logica_home'])
-  by = {p['name']: p for p in prog['preds']}
-  gsets = [set(g['p'] for g in v['grounded']) for v in versions]
-  tables = sorted({g['t'] for v in versions for g in v['grounded']})
-  owner = {g['t']: g['p'] for v in versions for g in v['grounded']}
+  gsets = [set(x['p'] for x in v['grounded']) for v in versions]
+  owner = {TableKey(v, x): x['p'] for v in versions for x in v['grounded']}
+  tables = sorted(owner)
+  # the same table name in the OTHER attached file, and a table nobody owns
+  elsewhere = sorted({'%s.%s' % (a, t.split('.', 1)[1]) for t in tables
+                      for a in attached} - set(tables))
+  for t in elsewhere:
+    owner[t] = owner[[k for k in tables
+                      if k.split('.', 1)[1] == t.split('.', 1)[1]][0]]
   steps = []
   ver = 1
   prev_run = None
@@ -197,8 +253,9 @@ def MakeCase(i):
       steps.append({'a': 'Run', 'p': p})
       prev_run = p
     elif r < 0.8 or steps[-1]['a'] == 'Switch':
-      t = rng.choice(tables + ['Other'])
-      if t == 'Other':
+      t = rng.choice(tables + tables + elsewhere +
+                     ['%s.Other' % rng.choice(attached)])
+      if t.endswith('.Other'):
         bag = [{'k': ir.N(7)}]
       else:
         cols = [h['f'] for h in by[owner[t]]['rules'][0]['head']]
@@ -209,9 +266,9 @@ def MakeCase(i):
       ver = 3 - ver
       steps.append({'a': 'Switch', 'ver': ver})
       prev_run = None
-  return {'tid': 't%d' % i, 'versions': versions, 'attach': attach,
-          'steps': steps, 'query': query,
-          'meta': {'features': feats, 'second': second}}
+  return {'tid': 't%d' % i, 'versions': versions, 'steps': steps,
+          'query': query,
+          'meta': {'features': feats, 'second': second, 'shapes': shapes}}
 
 
 def RecordTrace(i):
@@ -220,8 +277,9 @@ def RecordTrace(i):
 
 
 def PerformCase(case):
-  events, infos, texts = groundrun.Perform(case['versions'], case['attach'],
-                                           case['steps'])
+  # every third run of a trace is the subprocess `logica.py run_to_csv`
+  events, infos, texts = groundrun.Perform(case['versions'], case['steps'],
+                                           False, 3)
   case['events'], case['infos'], case['texts'] = events, infos, texts
   return case
 
@@ -450,7 +508,7 @@ def ClassifyTraceFailures(cases, verdicts, cls, counters, errors):
     ev, info = case['events'][step - 1], case['infos'][step - 1]
     feats = case['meta']['features']
     version = case['versions'][ev['ver'] - 1]
-    tab = {g['p']: g['t'] for g in version['grounded']}
+    tab = {g['p']: TableKey(version, g) for g in version['grounded']}
     unexplained = []
     for c in v['all']:
       clause = c['clause']
@@ -568,7 +626,10 @@ def Run(tier):
       total_hist += len(hs)
       if len(hs) > n_hist // len(FAMILIES):
         hs = rng.sample(hs, n_hist // len(FAMILIES))
-      items += [{'ix': m['ix'], 'family': m['family'], 'hist': h} for h in hs]
+      # a part of the histories also goes through the subprocess entry point
+      every = 4 if quick else 24
+      items += [{'ix': m['ix'], 'family': m['family'], 'hist': h,
+                 'main': k % every == 0} for k, h in enumerate(hs)]
     replayed = pool.map(ReplayHistory, items, chunksize=4) if items else []
     t_replay = clock() - t_model
     cases = [c for c in traces_async.get() if c is not None]
@@ -585,8 +646,13 @@ def Run(tier):
   drift = 0
   compiled = {}
   bad_items = []
+  run_modes = collections.Counter()
+  family_shapes = collections.Counter()
   for item, res in zip(items, replayed):
     compiled[res['pid']] = (res['compiled'], res['cached'])
+    for mode in res['modes']:
+      run_modes['history:' + mode] += 1
+    family_shapes[item['family']['name']] += 1
     drift += res['drift']
     steps_compared += len(item['hist'])
     for h in item['hist']:
@@ -669,6 +735,13 @@ def Run(tier):
       trace_kinds['RunInSecondVersion'] += 1
     if v['kind'] == 'RunDependant' and v['ok']:
       nontrivial_traces.add(tid)
+  trace_shapes = collections.Counter()
+  for c in kept:
+    for sh in c['meta'].get('shapes', []):
+      trace_shapes[sh] += 1
+    for info in c['infos']:
+      if info.get('mode'):
+        run_modes['trace:' + info['mode']] += 1
   for c in kept:
     # a run over a stale table: a Pre on a table some later run rewrites
     seen_pre = set()
@@ -676,7 +749,8 @@ def Run(tier):
       if ev['a'] == 'Pre':
         seen_pre.add(ev['t'])
       elif ev['a'] == 'Run' and ev['status'] == 'ok':
-        tabs = {g['t'] for g in c['versions'][ev['ver'] - 1]['grounded']}
+        tabs = {TableKey(c['versions'][ev['ver'] - 1], g)
+                for g in c['versions'][ev['ver'] - 1]['grounded']}
         if seen_pre & tabs:
           trace_kinds['RunOverStaleTable'] += 1
           seen_pre -= tabs
@@ -685,7 +759,7 @@ def Run(tier):
   for case, vs in bad_traces:
     path = common.WriteReplay(PROP, 'trace_%s' % case['tid'], {
         'mode': 'trace', 'case': {k: case[k] for k in (
-            'tid', 'versions', 'attach', 'steps', 'query', 'meta')},
+            'tid', 'versions', 'steps', 'query', 'meta')},
         'texts': case['texts'], 'observed': case['events'],
         'infos': case['infos'], 'failing': vs})
     violations.append(path)
@@ -718,6 +792,18 @@ def Run(tier):
       machinery.append('action %s never replayed on the implementation' % k)
     if not trace_kinds.get(k):
       machinery.append('action %s never occurred in a recorded trace' % k)
+
+  # shapes the property's quantifier and anchors name (exit 2 when absent)
+  for fam_name in ('order_limit', 'string_literals', 'datasets'):
+    if not family_shapes.get(fam_name):
+      machinery.append('no history of family %s replayed' % fam_name)
+  for sh in ('several_databases', 'dataset_annotation', 'explicit_table_name',
+             'order_limit_multi_rule', 'order_limit_single_rule'):
+    if not trace_shapes.get(sh):
+      machinery.append('shape %s never occurred in a recorded trace' % sh)
+  for mode in ('history:script', 'history:main', 'trace:script', 'trace:main'):
+    if not run_modes.get(mode):
+      machinery.append('no run through the real runner in mode %s' % mode)
 
   samples = []
   for item, res in list(zip(items, replayed))[:2]:
@@ -756,15 +842,24 @@ def Run(tier):
       'rule': (
           'spec->code: TLC enumerates every history of <= 4 actions (Run of '
           'every runnable predicate, PrePopulate of every listed table, '
-          'SwitchVersion) of 4 program families (spec/GroundModels.tla) with '
+          'SwitchVersion) of 7 program families (spec/GroundModels.tla: docs '
+          'example, chain, named/explicit tables, through an ungrounded middle, '
+          'order+limit on multi- and single-rule grounded predicates, string '
+          'literals with ; newline and quotes, two attached databases with '
+          '@Dataset) with '
           'the history kept in the state; %s maximal histories are replayed '
-          'on the real pipeline against a real SQLite file and the file and '
+          'on the real pipeline (every run through the real '
+          'sqlite3_logica.RunSqlScript, a part through the subprocess '
+          'logica.py run_to_csv) against real SQLite files and EVERY attached '
+          'file and the '
           'returned rows are compared with the model after EVERY step; '
           'non-trivial = distinct (family, action sequence) in which at least '
           'one run writes a table.  code->spec: seeded random programs '
           '(gen.CORE / gen.AGG7) with @Ground on 1-2 intermediates (some under '
-          'explicit table names), a second version (other facts or other '
-          'grounding), 4-7 random steps; every step decided by TLC '
+          'explicit alias.table names, one or two attached databases, '
+          '@Dataset, @OrderBy+@Limit over all columns on a grounded '
+          'predicate), a second version (other facts or other grounding, '
+          '@Dataset added/dropped), 4-7 random steps; every step decided by TLC '
           '(GroundTrace); non-trivial = distinct traces with an accepted run '
           'of a dependant of a grounded predicate.  Excluded from traces: '
           'tables > %d rows, float values.' % (
@@ -803,6 +898,9 @@ def Run(tier):
       'traces_skipped': dict(skipped),
       'trace_steps_judged': len(verdicts),
       'trace_steps_by_action': dict(trace_kinds),
+      'trace_shapes': dict(trace_shapes),
+      'histories_replayed_by_family': dict(family_shapes),
+      'runs_by_real_entry_point': dict(run_modes),
       'trace_clauses': dict(clauses),
       'trace_tlc_states': tstats['states'],
       'classified': dict(counters),
@@ -857,9 +955,7 @@ def Replay(path):
     print('first difference from the model state:', res['bad'])
   else:
     case = rp['case']
-    events, infos, texts = groundrun.Perform(case['versions'], case['attach'],
-                                             case['steps'])
-    case.update(events=events, infos=infos, texts=texts)
+    PerformCase(case)
     verdicts, _, errors = ValidateTraces([TraceLine(case)], 'c17replay')
     counters = collections.Counter()
     cls = findings.Classifier(PROP)
